@@ -4,7 +4,7 @@ CONSTANTS
   MaxTips = 6
   ExhaustNodes = 0
   Patterns = {3}
-  Ops = {"NewickRT", "NewickNamesRT", "NewickDefaultRT", "JsonRT", "RichDictRT", "Copy", "DeepCopy", "CopyModule", "DndRT", "Sorted", "SortedRev", "RootedAt", "RootedWithTip", "Unrooted", "SubTree", "RootAtMidpoint", "Prune", "Bifurcating"}
+  Ops = {"NewickRT", "NewickNamesRT", "NewickDefaultRT", "JsonRT", "RichDictRT", "Copy", "DeepCopy", "CopyModule", "DndRT", "Sorted", "SortedRev", "RootedAt", "RootedWithTip", "Unrooted", "SubTree", "RootAtMidpoint", "Prune", "Bifurcating", "Query"}
   TipsOnlyVals = {FALSE, TRUE}
   ShapeMod = 12
   ShapeRem = 0
@@ -15,4 +15,9 @@ PROPERTY TipsIntended
 PROPERTY MidpointCentred
 PROPERTY RerootLandsThere
 PROPERTY UnrootedDegree
+INVARIANT ConnectingEdgesSpanThePath
+INVARIANT ConnectingEdgesReverse
+INVARIANT LCAIsLowest
+INVARIANT CladeIsTheFarSideOfItsStem
+PROPERTY CladeWithOutgroupIsRootFree
 CONSTRAINT DepthBound
